@@ -22,6 +22,13 @@ import z3
 class OutsideSubset(Exception):
   """The real code (or a contract) uses something the verifier does not model."""
 
+  def __init__(self, *a):
+    super().__init__(*a)
+    import os
+    if os.environ.get('PYVC_TRACE'):      # development aid: where in the engine the construct was met
+      import traceback
+      traceback.print_stack(limit=14)
+
 
 _counter = itertools.count()
 USED_SORTS: set = set()   # names of the opaque / union sorts touched while building the current path
